@@ -1739,6 +1739,20 @@ fn rate_to_n<R: RngCore>(rate: f32, rng: &mut R) -> u64 {
     }
 }
 
+/// Verification accessor (`--cfg metrique_verif` only): the rate -> (n, alpha) split
+#[cfg(metrique_verif)]
+#[doc(hidden)]
+pub fn __verif_rate_to_n_alpha(rate: f32) -> (u64, f64) {
+    rate_to_n_alpha(rate)
+}
+
+/// Verification accessor (`--cfg metrique_verif` only): the weight chosen for `rate` under `rng`
+#[cfg(metrique_verif)]
+#[doc(hidden)]
+pub fn __verif_rate_to_n<R: RngCore>(rate: f32, rng: &mut R) -> u64 {
+    rate_to_n(rate, rng)
+}
+
 impl<R: RngCore> SampledFormat for SampledEmf<R> {
     fn format_with_sample_rate(
         &mut self,
